@@ -184,6 +184,9 @@ def service_oracle(script, impl):
                 bad('limit: request outside the limits accepted (%s)' % what, ws, out)
             if not outside and svc in VALIDATION[:4]:
                 bad('limit: request within the documented limits rejected', ws, out)
+            if not outside and svc == 'err:transport-size':
+                bad('limit: request within the documented limits refused by the transport (the server\'s gRPC message-size limit is below '
+                    'the documented 10 MB value limit)', ws, out)
 
         def mutator_on_replica():
             if ro and not closed and ok:
